@@ -148,13 +148,17 @@ def future_drain_callers(ctx, R, regex):
     return out
 
 
-def r2_1(ctx, R):
+def r2_1(ctx, R, only_in=None):
+    """only_in: regex on the caller's path restricting which future-polling DRAIN callers are examined (properties that
+    only rest on the collections' own removal discipline do not examine join_all & co.)."""
     ctx.rule("R2.1", "vacate <=> Ready: in every caller of DRAIN with poll_fn = Future::poll, REMOVE(i) with the drained "
                      "index is must-pass-through on the Ready(Some((i, x))) path before return, the returned pair is "
                      "(i, x), and REMOVE is called on no other path; in DRAIN the returned (i, x) are the popped index "
                      "and the payload of this iteration's child poll")
     rem = R.remove_fn
     callers = future_drain_callers(ctx, R, RE_FUTURE_POLL)
+    if only_in:
+        callers = [c for c in callers if re.search(only_in, c[0].path)]
     for b, (dbb, dt, dfn) in callers:
         fl = ctx.flow(b)
         vf = variant_facts(b, fl)
@@ -276,16 +280,35 @@ def r2_4(ctx, R, counter_field):
     # unbounded
     for b in group_loop_fns(ctx):
         fl = ctx.flow(b)
+        vfb = variant_facts(b, fl)
         for k, rb in enumerate(ready_none_blocks(ctx, b)):
             ok = False
+            det = ""
+            inner_none = any(v == "None" for (_, v) in vfb.get(rb, frozenset())) and any(v == "Ready" for (_, v) in vfb.get(rb, frozenset()))
             for sb in range(b.n):
                 for tgt, labs in fl.edge_labels(sb).items():
                     for lab in labs:
-                        if lab[0] == "bool" and lab[2] is True and lab[1][0] == "call" and lab[1][1] and \
-                                re.search(r"alloc::vec::Vec::<.*>::is_empty$", lab[1][1]) and b.dominates(tgt, rb) \
-                                and len(b.pred[tgt]) == 1:
+                        if lab[0] != "bool" or lab[2] is not True or not b.dominates(tgt, rb) or len(b.pred[tgt]) != 1:
+                            continue
+                        if lab[1][0] == "call" and lab[1][1] and re.search(r"alloc::vec::Vec::<.*>::is_empty$", lab[1][1]):
                             ok = True
-            ctx.ob("R2.4", b, "ready-none-behind-groups.is_empty#%d" % k, ok, b.loc(rb))
+                            det = "behind groups.is_empty()"
+                        elif inner_none and lab[1][0] == "binop" and lab[1][1] in ("Eq", "Le", "Lt", "Ge", "Gt", "Ne"):
+                            # the polled group just reported None (it is empty); a test on the number of groups must say it is
+                            # the only one: len in {0,1} before it is removed from the vector, len == 0 after
+                            a_, c_ = lab[1][2], lab[1][3]
+                            lens = None
+                            if a_[0] == "call" and re.search(r"alloc::vec::Vec::<.*>::len$", a_[1] or "") and c_[0] == "const":
+                                k_ = int(c_[2])
+                                ops_ = {"Eq": lambda n_: n_ == k_, "Le": lambda n_: n_ <= k_, "Lt": lambda n_: n_ < k_,
+                                        "Ge": lambda n_: n_ >= k_, "Gt": lambda n_: n_ > k_, "Ne": lambda n_: n_ != k_}
+                                lens = {n_ for n_ in range(0, 6) if ops_[lab[1][1]](n_)}
+                                removed_before = any(b.dominates(rbb_, a_[3]) for rbb_, _, _ in direct_sites(b, r"alloc::vec::Vec::<.*>::(remove|swap_remove|pop)$"))
+                                allowed_ = {0} if removed_before else {0, 1}
+                                if lens and lens <= allowed_:
+                                    ok = True
+                                    det = "groups.len() in %s %s removing the exhausted group" % (sorted(lens), "after" if removed_before else "before")
+            ctx.ob("R2.4", b, "ready-none-behind-groups.is_empty#%d" % k, ok, b.loc(rb), det)
     # all other poll functions of collection types: None only forwarded
     for b in ctx.facts.fn_bodies():
         if not re.search(r"as futures_core::Stream>::poll_next$", b.path):
@@ -450,6 +473,30 @@ def r2_6(ctx, R):
     ctx.floor("R2.6", "unbounded-with-counter", n, 1)
 
 
+def push_path_insertions(ctx, pb, coll=r"(FuturesUnorderedBounded|MergeBounded)"):
+    """For every feasible return path of an unbounded push: number of successful insertions on it (a try_push whose
+    result is known Ok on the path, or a panicking push of the bounded group).  -> [(path, n)]"""
+    pfl = ctx.flow(pb)
+    psucc, _ = feasible_cfg(pb, pfl)
+    pvf = variant_facts(pb, pfl)
+    tp = [(bb, t) for bb, t, fn in pb.calls() if fn and not pb.is_cleanup(bb)
+          and re.search(coll + r"::<.*>::try_push$", fn_name(fn) or "")]
+    ps = {bb for bb, t, fn in pb.calls() if fn and not pb.is_cleanup(bb)
+          and re.search(coll + r"::<.*>::push$", fn_name(fn) or "")}
+    out = []
+    for k, p in enumerate_paths(pb, psucc):
+        if k != "return":
+            continue
+        nins = sum(1 for x in p if x in ps)
+        for (tbb, tt) in tp:
+            if tbb in p:
+                dest = place_str(tt["dest"])
+                if any((dest, "Ok") in pvf.get(x, frozenset()) for x in p[p.index(tbb):]):
+                    nins += 1
+        out.append((p, nins))
+    return out
+
+
 def _last_ret_assign(body, path):
     for b in reversed(path):
         for s in body.stmts(b):
@@ -523,10 +570,13 @@ def r2_7(ctx, R, counter, head):
         ctx.ob("R2.7", b, "lookup=slots.get_mut(key)-repinned", ok, d_loc(b), det)
 
 
+COLLECTIONS = r"^(<)?(futures_unordered_bounded|futures_unordered|futures_ordered_bounded|futures_ordered|merge_bounded|merge_unbounded)::"
+
+
 def run(ctx):
     R = roles(ctx)
     R.pop_fn, R.drain_fn, R.insert_fn, R.remove_fn
-    r2_1(ctx, R)
+    r2_1(ctx, R, only_in=COLLECTIONS)
     r2_2(ctx, R)
     res = r2_3(ctx, R)
     counter = res["INSERT"][0] or ".filled"
